@@ -143,6 +143,14 @@ def run(ck, replay=None):
                 niter_before = step['niter'] if step['niter'] >= 0 else niter_before
             ck.count(line, ncomp > 0)
             dist[cls] = dist.get(cls, 0) + 1
+            mine = [b for b in pred_bad if b[0] == line]
+            if mine and all('do not belong together' in b[1] for b in mine) and is_gen(cls):
+                import p_C01
+                if [f for f in load_known().get('findings', []) if f.get('id') == 'F5-C05'] and p_C01.known_f5_applies(exe, cls, line.replace(' nvecs=1', '')):
+                    pred_bad = [b for b in pred_bad if b[0] != line]
+                    m5 = 'F5-C05 general solver whose Krylov basis lost orthonormality (root: F5): a converged value is paired with a vector that is not its eigenvector (witness: GenEigsSolver n=27 nev=6 ncv=8 grealspec mseed=847881)'
+                    if m5 not in ck.known_hits:
+                        ck.known_hits.append(m5)
         ck.oblige('public-API consistency predicate on every observed call (%d histories)' % len(hs), not pred_bad,
                   'history `%s` -> %s' % pred_bad[0] if pred_bad else '')
         if pred_bad:
